@@ -8,7 +8,7 @@ from ..oracles import interp as oi
 META = dict(
     level="exploration",
     design_ref="DESIGN.md §5 C05",
-    technique="end-to-end conservation monitor: real eko.solve on 28-40 point grids, applied through ekobox.apply to random smooth toy PDFs; moments of the interpolated input and output computed with the oracle's own Lagrange basis and Gauss-Legendre quadrature, compared before/after",
+    technique="end-to-end conservation monitor: real eko.solve on 24-40 point grids, stored operators contracted in the harness (C43 ties ekobox.apply to this contraction) with random smooth toy PDFs; moments of the interpolated input and output computed with the oracle's own Lagrange basis and Gauss-Legendre quadrature, compared before/after",
     level_text="Real solves (LO-NNLO, FFNS and one-threshold VFNS, up and down in scale, unpolarised incl. QED, polarised) applied to random smooth PDFs; total momentum, each flavour's valence number and the polarised non-singlet first moments must be unchanged within 1% (abs 0.02 for vanishing valence).",
     level_note="Moments are those of the piecewise-Lagrange interpolant on [x_min,1] with the same quadrature before and after, so the interpolation error of the toy PDF cancels to first order; toy PDFs are chosen so that the region below x_min carries <0.2% of each moment. The interpolation basis used for the quadrature weights is the oracle's (vlib/oracles/interp.py), not eko's.",
     rule="case = (configuration, PDF replica, conserved quantity); distinct by configuration+replica+quantity; non-trivial = mu really changes and the conserved quantity is O(1) or an exactly-zero valence with non-zero sea",
@@ -21,8 +21,10 @@ PIDS = [22, -6, -5, -4, -3, -2, -1, 21, 1, 2, 3, 4, 5, 6]
 GL_X, GL_W = np.polynomial.legendre.leggauss(16)
 
 
-def weights(xs, degree, k):
-    """w_j = int_{xmin}^1 x^k p_j(x) dx for the log-Lagrange basis (oracle block choice)."""
+def weights(xs, degree, k, is_log=True):
+    """w_j = int_{xmin}^1 x^k p_j(x) dx for the (log- or linear-) Lagrange basis (oracle block choice)."""
+    if not is_log:
+        return weights_lin(xs, degree, k)
     us = np.log(np.asarray(xs, float))
     n = len(us)
     wj = np.zeros(n)
@@ -30,6 +32,24 @@ def weights(xs, degree, k):
         a, b = us[i], us[i + 1]
         u = 0.5 * (b - a) * GL_X + 0.5 * (b + a)
         jac = 0.5 * (b - a) * GL_W * np.exp((k + 1) * u)  # dx = e^u du
+        nodes = us[s : e + 1]
+        for jj in range(len(nodes)):
+            p = np.ones_like(u)
+            for kk in range(len(nodes)):
+                if kk != jj:
+                    p *= (u - nodes[kk]) / (nodes[jj] - nodes[kk])
+            wj[s + jj] += float(np.sum(jac * p))
+    return wj
+
+
+def weights_lin(xs, degree, k):
+    us = np.asarray(xs, float)
+    n = len(us)
+    wj = np.zeros(n)
+    for i, (s, e) in enumerate(oi.blocks(n, degree)):
+        a, b = us[i], us[i + 1]
+        u = 0.5 * (b - a) * GL_X + 0.5 * (b + a)
+        jac = 0.5 * (b - a) * GL_W * u**k
         nodes = us[s : e + 1]
         for jj in range(len(nodes)):
             p = np.ones_like(u)
@@ -93,14 +113,15 @@ def run_case(cfg):
 
         return dict(status="crash", msg=f"{type(e).__name__}: {str(e)[:200]}", tb=traceback.format_exc()[-500:])
     xs = np.array(cfg["xgrid"])
-    w1 = weights(xs, cfg["degree"], 1)
-    w0 = weights(xs, cfg["degree"], 0)
+    w1 = weights(xs, cfg["degree"], 1, cfg.get("is_log", True))
+    w0 = weights(xs, cfg["degree"], 0, cfg.get("is_log", True))
     polarized = cfg["pt"] == "pol"
     qed = cfg["qed"] > 0
     nf0 = cfg["init"][1]
     out = []
     for rep in range(cfg["_replicas"]):
-        f, par = toy(rng, nf0, polarized, qed)
+        # linear interpolation cannot resolve steep small-x shapes on an affordable grid: valence-like inputs there
+        f, par = toy(rng, nf0, polarized or not cfg.get("is_log", True), qed)
         fin = np.array([f(pid, xs) for pid in PIDS])  # [pid, x]
         fin[:, -1] = 0.0  # f(1) = 0
         for (mu2, nf), (o, err) in res.items():
@@ -163,9 +184,18 @@ def configs(ck):
     ck_cores = -1 if ck.quick else 4  # solves are expensive: use the library's own pool
     if ck.quick:
         cfgs += [base(1, 0, "unpol", 4, 4, True), base(2, 0, "unpol", 4, 5, True), base(1, 0, "pol", 3, 3, True)]
+        lin = base(1, 0, "unpol", 4, 4, True, nlow=10, nhigh=14, xmin=1e-3)
+        lin["is_log"] = False  # polynomial-in-x interpolation declared in the card must be honoured and conserve as well
+        lin["targets"] = [[lin["init"][0] * 2.0, 4]]
+        cfgs.append(lin)
     else:
         for qcd in (1, 2, 3):
             cfgs += [base(qcd, 0, "unpol", 4, 4, True), base(qcd, 0, "unpol", 4, 5, True), base(qcd, 0, "unpol", 4, 4, False, method="truncated"), base(qcd, 0, "pol", 3, 3, True), base(qcd, 0, "pol", 4, 5, True)]
+        for q in (1, 2):
+            lin = base(q, 0, "unpol", 4, 4, True, nlow=10, nhigh=14, xmin=1e-3)
+            lin["is_log"] = False
+            lin["targets"] = [[lin["init"][0] * 2.0, 4]]
+            cfgs.append(lin)
         cfgs += [base(2, 0, "unpol", 5, 4, False), base(1, 0, "unpol", 3, 4, True, nlow=18, nhigh=18), base(1, 1, "unpol", 4, 4, True), base(2, 1, "unpol", 4, 4, True), base(2, 0, "unpol", 3, 3, True, method="iterate-expanded"), base(2, 0, "pol", 4, 4, False)]
     return cfgs
 
